@@ -57,6 +57,9 @@ CHECKS = {
  "C04": ("property-based testing (rapid): valid generated programs x single rule-breaking edits from a catalogue (fault injection into the input) x backends, black-box oracle on the thriftgo binary; contra-positive run on the unedited program",
          "Every catalogue edit is constructed to break exactly one enforced rule; the binary must exit non-zero with a diagnostic, write nothing, show no Go panic/fatal trace and not hang, wherever in the include graph the error sits; the unedited program must exit 0 with its output complete.",
          "Trusted: the edit constructors (each verified to break only the named rule on hand cases)."),
+ "C13": ("property-based testing (rapid): generated (value, path set, mode, option) tuples through compiled with_field_mask code vs an independent reference filter; strict reference decoder for well-formedness of every container header",
+         "Programs generated with with_field_mask are compiled into the reflective driver; writing and reading under generated masks must be well-formed (strict decoder: header counts equal elements) and, on conflict-free path sets, equal the reference filter of the model value; a nil mask must behave like code without the option.",
+         "Trusted: the reference filter (written from fieldmask/README.md and the property statement, validated on 30 hand cases), the reference codec."),
 }
 NOT_YET = "check not built yet (work in progress; the technique applies, see DESIGN.md)"
 
